@@ -256,6 +256,8 @@ def conv_expected(conv, val):
         return str(val)
     if conv is bool:
         return bool(val)
+    if val is None:
+        return None   # a host default of None where the table expects a number: compared as None (the node must say "absent" too)
     return conv(val)
 
 
@@ -313,6 +315,21 @@ def main() -> int:
             vals2[pn] = form.format(v=sp["values"][pn])
             parts = [vals2[n] for n in pos] + [f"{n}={vals2[n]}" for n in kw]
             extra.append((", ".join(parts), pos, kw, {pn: eval(vals2[pn], {"__builtins__": {}}, {"max": max, "min": min, "abs": abs, "int": int})}))
+        # two or more arguments written with the very same text (binding goes by position / keyword, never by value)
+        n_same = 0
+        for args_text, pos, kw in all_shapes[:60]:
+            cands = [n for n in (pos + kw) if sp["values"][n].replace(".", "", 1).isdigit()]
+            if len(cands) < 2 or len(pos) < 1:
+                continue
+            vals2 = dict(sp["values"])
+            for n in cands:
+                vals2[n] = "44"
+            parts = [vals2[n] for n in pos] + [f"{n}={vals2[n]}" for n in kw]
+            extra.append((", ".join(parts), pos, kw, {n: 44 for n in cands}))
+            n_same += 1
+            if n_same >= 8:
+                break
+        rep.count("equal_text_shapes", n_same)
         rep.count("expression_valued_shapes", len(extra))
         for shape in [x + ({},) for x in all_shapes] + extra:
             args_text, pos, kw, override = shape
